@@ -16,7 +16,7 @@ func init() {
 		Explain: "The agent never wedges — structural preconditions of deadlock freedom decided over all goroutine roles and channel creation sites (inclusion-based channel points-to; roles = go-callees reaching a function without crossing `go`): (C10.1) wait-for: no blocking send/receive by a single-instance goroutine on a channel whose only counterpart operations run in that same goroutine, for every creation site the operand may denote (so a mode-dependent alias such as upgradeChan=updateChan is examined by itself), and no cycle among roles other than the request/response rendezvous; (C10.2) pairing: every Store.* client method makes a fresh unbuffered response channel, puts it into the request, sends the request and immediately receives on that channel; in the dispatcher every case answers exactly once on the request's own channel on every path (none when response==nil); (C10.3) the dispatcher loop has no exit, is started exactly once per successfully built store and has a case for every request channel created in NewStore and exposed by GetInterface; (C10.4) helpers never wait on the dispatcher and the dispatcher never waits on slow things: no process wait, HTTP client call or sleep reachable from the dispatcher or hooks goroutine without crossing `go`; the remote upgrader acquires its semaphore only in a select with default.",
 		Undec: []string{"actual schedules and timing; slowness versus wedge", "a stalled remote master beyond 'never on the dispatcher's path'", "internals of net/http, glauth/ldap and the sasl accept loop", "panics (C02.3/C18.3 cover the known panic preconditions)"},
 		Run:   runC10,
-		Floors: map[string]int{"C10.1": 25, "C10.2": 18, "C10.3": 3, "C10.4": 3},
+		Floors: map[string]int{"C10.1": 25, "C10.2": 18, "C10.3": 3, "C10.4": 3, "C10.5": 2},
 	})
 }
 
@@ -259,6 +259,72 @@ func runC10(c *an.Ctx, p *an.Prog, thorough bool) {
 
 	c103(c, p)
 	c104(c, p)
+	c105(c, p)
+}
+
+// c105: the frontends keep accepting: the saslauthd accept loop may only leave on an error that is not temporary
+// (EMFILE/ENFILE/ECONNABORTED from accept are Temporary(); a loop that returns on them is dead for good while
+// clients keep queueing in the listen backlog).
+func c105(c *an.Ctx, p *an.Prog) {
+	run := p.Method("/sasl", "Server", "Run")
+	if !need(c, "C10.5", run, "sasl.(*Server).Run") {
+		return
+	}
+	var bad []string
+	nret := 0
+	hdrs := loopHeaders(run)
+	if len(hdrs) == 0 {
+		bad = append(bad, "no accept loop")
+	}
+	an.EnumPaths(run, nil, nil, func(s *an.PathState) {
+		ret := lastReturn(s)
+		if ret == nil {
+			return
+		}
+		nret++
+		// the returned error is Accept's; the path must have excluded "temporary"
+		var acc *an.Term
+		for _, e := range s.Events {
+			if e.Kind == "call" && strings.HasSuffix(e.Callee, "net.Listener.Accept") {
+				acc = e.Res
+			}
+		}
+		if acc == nil {
+			bad = append(bad, "Run returns without having called Accept (path "+s.BlockPath()+")")
+			return
+		}
+		notTemp := false
+		for _, a := range s.Atoms {
+			if a.Op == "false" && a.A.Op == "call" && strings.HasSuffix(a.A.Aux, ".Temporary") {
+				notTemp = true
+			}
+			// not a *net.OpError / net.Error at all
+			if a.Op == "false" && a.A.Op == "extract" && a.A.Aux == "1" && a.A.Args[0].Aux == "typeassert" {
+				notTemp = true
+			}
+		}
+		if !notTemp {
+			bad = append(bad, "the accept loop ends on an error that was not shown to be non-temporary (path "+s.BlockPath()+" ["+s.FactsString()+"]): one EMFILE would stop the frontend for good")
+		}
+	})
+	c.Check(len(bad) == 0 && nret > 0, "C10.5", fnKey(run)+"|accept-loop-survives-temporary-errors", p.Pos(run.Pos()), fmt.Sprintf("%d return paths, each only for non-temporary accept errors; temporary ones continue the loop", nret), strings.Join(uniqS(bad), "; "))
+	// listeners of the agent are started in their own goroutines and the SASL one only ends with Run
+	n := 0
+	for _, name := range []string{"runSaslAuthSocket", "runSaslAuthSocketListener"} {
+		fn := p.Func("/cmd/whawty-auth", name)
+		if fn == nil {
+			continue
+		}
+		n++
+		if len(an.CallsTo(fn, "(*"+saslPkg+".Server).Run")) != 1 {
+			c.Fail("C10.5", fnKey(fn)+"|runs-server", p.Pos(fn.Pos()), "the listener function does not run the sasl server exactly once")
+		} else {
+			c.OK("C10.5", fnKey(fn)+"|runs-server", p.Pos(fn.Pos()), "runs sasl.Server.Run until it ends")
+		}
+	}
+	if n == 0 {
+		c.Undecided("C10.5", "sasl-listeners", "-", "UNRESOLVED: no saslauthd listener function found")
+	}
 }
 
 func fnSetNames(m map[*ssa.Function]bool) []string {
